@@ -6,6 +6,7 @@ import Pfl.Oracle.Trees
 import Pfl.Model.BarHillel
 import Pfl.Model.CFGCounters
 import Pfl.Model.Codec
+import Pfl.Model.LL1Lib
 import PflDrv.FA
 open Lean Pfl
 namespace PflDrv
@@ -73,6 +74,24 @@ def cfgHandle (op : String) (j : Json) : R Json := do
       ("read", jComp (Codec.readComponent t.toList))]) toks
   let G ← asCFG (← field j "G")
   match op with
+  | "cfg.ll1lib" =>   -- faithful model of LLOneParser
+    let jLook : LL1Lib.Look → Json := fun l => match l with
+      | .ter t => Json.arr #[jStr "t", jStr t]
+      | .eps => Json.arr #[jStr "eps"]
+      | .eof => Json.arr #[jStr "$"]
+    let ws ← (← asArr (fieldD j "words" (Json.arr #[]))).mapM asStrList
+    let fuel := 100000
+    match LL1Lib.firstSet G fuel, LL1Lib.followSet G fuel, LL1Lib.table G fuel, LL1Lib.isLLOne G fuel with
+    | some F, some Fo, some tb, some b =>
+      pure (Json.mkObj [("first", jList (jPair jSym (jList jLook)) F),
+        ("follow", jList (jPair (jOpt jSym) (jList jLook)) Fo),
+        ("table", jList (fun (e : String × LL1Lib.Look × Prod) => Json.arr #[jStr e.1, jLook e.2.1, jProd e.2.2]) tb),
+        ("isLLOne", jBool b),
+        ("parse", jList (fun w => match LL1Lib.parse G w fuel with
+          | none => jStr "fuel"
+          | some none => Json.null
+          | some (some t) => jTree t) ws)])
+    | _, _, _, _ => throw "fuel"
   | "cfg.counters" =>
     let nullable ← asBool (← field j "nullable")
     let (rem, imp, added) := G.buildTables
